@@ -1246,6 +1246,7 @@ func (s *State) evalStringInfixExpression(operator token.Type, left, right objec
 	switch {
 	case operator == token.PLUS && right.Type() == object.STRING:
 		rightVal := right.(object.String).Value
+		object.MustBeOk((len(leftVal) + len(rightVal)) / object.ObjectSize) // like for * and for arrays.
 		return object.String{Value: leftVal + rightVal}
 	case operator == token.ASTERISK && rightIsInt:
 		if rightVal < 0 {
